@@ -160,7 +160,7 @@ def _moment_case(case):
     out = {"failures": fails, "canon": dw.canon(sa), "nontrivial": len(history) > 0 or c.get("estimator") == "real",
            "outcome": (round(float(E[0]), 10), round(float(V[0]), 10))}
     if case.get("want_events", False):
-        out["events"] = dw.events(sa, c.get("s", 1))
+        out["events"] = dw.events_for(sa, c)
     return out
 
 
